@@ -1,58 +1,35 @@
 /-
-  C09 helper lemmas, part 6: the modelled CURRENT code deviates from the specification on the finding inputs
-  (general forms; the concrete witnesses are in Props/C09.lean).
+  C09 helper lemmas, part 6: facts around the findings.
+  F-C09a is REPAIRED in /repo (88921fc: `VariantIntervalCollection.is_coding` returns False); what used to be the
+  deviation witness is now the positive statement: with `coding_only` a variant collection is never kept.
 -/
 import BioCantor.Proofs.QueryPos
 namespace BioCantor.Proofs.Query
 open BioCantor BioCantor.Spec BioCantor.Spec.Query BioCantor.Model.Query
 
-/-- F-C09a: with `coding_only` the loop raises AttributeError at a VariantIntervalCollection -/
+theorem keepSpec_variant (cw : Bool) (s e : Int) (c : Child) (hk : c.kind = .var) :
+    keepSpec true cw s e c = false := by
+  unfold keepSpec Child.isCoding
+  rw [hk]
+  rfl
+
+/-- after the repair of F-C09a: with `coding_only` the loop skips a VariantIntervalCollection (it used to raise
+    AttributeError there) -/
 theorem keepChild_variant (cw : Bool) (myBins : Option GenP.RangeSet) (s e : Int) (c : Child) (hk : c.kind = .var) :
-    keepChild true cw myBins s e c = .error .attributeError := by
+    keepChild true cw myBins s e c = .ok false := by
   unfold keepChild isCoding
   rw [hk]
   rfl
 
-theorem filterQ_error (f : Child → QR Bool) (E : QErr) (l : List Child)
-    (hall : ∀ c ∈ l, (∃ b, f c = .ok b) ∨ f c = .error E) (hex : ∃ c ∈ l, f c = .error E) :
-    filterQ f l = .error E := by
-  induction l with
-  | nil => obtain ⟨c, hc, _⟩ := hex; cases hc
-  | cons a as ih =>
-    unfold filterQ
-    rcases hall a List.mem_cons_self with ⟨b, hb⟩ | hb
-    · rw [hb]
-      obtain ⟨c, hc, hce⟩ := hex
-      rcases List.mem_cons.mp hc with rfl | hc'
-      · rw [hb] at hce; cases hce
-      · rw [ih (fun x hx => hall x (List.mem_cons_of_mem _ hx)) ⟨c, hc', hce⟩]
-        rfl
-    · rw [hb]; rfl
-
-/-- F-C09a (general): a collection holding a variant collection cannot be queried with `coding_only=True`:
-    for every valid range the loop ends in AttributeError -/
+/-- … so a coding-only query succeeds on collections holding variant collections and keeps none of them -/
 theorem queryKept_codingOnly_variant (src : Source) (s e : Int) (cw : Bool) (hs : 0 ≤ s) (hse : s < e)
-    (hwf : ∀ c ∈ src.children, ChildWF c) (hv : ∃ c ∈ src.children, c.kind = .var) :
-    queryKept src s e cw true = .error .attributeError := by
-  unfold queryKept
-  have key : ∀ myBins, (myBins = none ∨ (cw = true ∧ ∃ S, myBins = some S ∧
-      Gen.bins s e .bed false = .ok (.many S))) →
-      filterQ (keepChild true cw myBins s e) (iterChildren src) = .error .attributeError := by
-    intro myBins hb
-    apply filterQ_error
-    · intro c hc
-      by_cases hk : c.kind = .var
-      · exact Or.inr (keepChild_variant cw myBins s e c hk)
-      · exact Or.inl ⟨_, keepChild_eq true cw s e hs hse c (hwf c (mem_iterChildren.mp hc)) (fun _ => hk) myBins hb⟩
-    · obtain ⟨c, hc, hk⟩ := hv
-      exact ⟨c, mem_iterChildren.mpr hc, keepChild_variant cw myBins s e c hk⟩
-  by_cases hb : cw = true ∧ s ≠ 0 ∧ e ≠ 0
-  · obtain ⟨S, hS1, hS2⟩ := binsAll_total s e
-    obtain ⟨hcw, h1, h2⟩ := hb
-    subst hcw
-    simp only [h1, h2, ne_eq, not_false_eq_true, and_self, if_true, hS1, bind, Except.bind, pure, Except.pure]
-    exact key (some S) (Or.inr ⟨rfl, S, rfl, hS2⟩)
-  · simp only [hb, if_false, bind, Except.bind, pure, Except.pure]
-    exact key none (Or.inl rfl)
+    (hwf : ∀ c ∈ src.children, ChildWF c) :
+    ∃ kept, queryKept src s e cw true = .ok kept ∧ ∀ c ∈ kept, c.kind ≠ .var ∧ c.coding = true := by
+  refine ⟨_, queryKept_eq src s e cw true hs hse hwf, ?_⟩
+  intro c hc
+  unfold specFilter at hc
+  have hk := (List.mem_filter.mp hc).2
+  unfold keepSpec Child.isCoding at hk
+  cases hkind : c.kind <;> simp_all
 
 end BioCantor.Proofs.Query
